@@ -315,9 +315,9 @@ def r09_5(run, model):
 
 
 def run(run, model):
-    r09_1(run, model)
-    r09_2(run, model)
-    r09_3(run, model)
-    r09_4(run, model)
-    r09_5(run, model)
+    run.try_rule(r09_1, model)
+    run.try_rule(r09_2, model)
+    run.try_rule(r09_3, model)
+    run.try_rule(r09_4, model)
+    run.try_rule(r09_5, model)
     run.assume("children of a Lift IR variant are declared in source evaluation order (callee, arguments; lhs, rhs; receiver, arguments) - read and confirmed for ECall, EBinary, EDynCall")
